@@ -6,6 +6,8 @@
     snapshot test in harness/props/c07.py ([extra_checks]). *)
 From InvokeVerif Require Import Corr.C07Corr Proofs.C07_fuel Proofs.C07_errors Proofs.C07_witness
      Proofs.C07_positional.
+From InvokeVerif Require Spec.C01Spec Proofs.C01_final Proofs.C01_wide_final2.
+From InvokeVerif Require Import Proofs.C07_noerror.
 
 (** Termination (full): the token loop -- which re-inserts pieces of split
     tokens into the list it iterates over -- always ends within [body_fuel]
@@ -80,6 +82,23 @@ Theorem C07_missing_value_errors_refuted_repeat :
     parser_parse cs init false argv = Ok r /\
     spec_ok cs init false argv (Ok (obs_of_presult r)) = false.
 Proof. exact refuted_repeat. Qed.
+
+(** "Raises exactly in the documented situations", the converse direction: a
+    well-formed command line does NOT raise.  Universally quantified over the
+    spelling fragments of the C01 round-trip theorems (corollaries): every
+    command line that spells an invocation of the simple fragment
+    ([C01_final.simple_guard]) or of the widest proved fragment
+    ([C01_wide_final2.guard_wide_x]: glued values, counters, positionals by
+    position, optional flags with value, clusters) parses to a result. *)
+Theorem C07_no_error_on_roundtrip_fragment : forall cs ic inv,
+  C01_final.simple_guard cs ic inv = true ->
+  exists r, parser_parse cs (Some ic) false (C01Spec.spell cs inv) = Ok r.
+Proof. exact no_error_simple. Qed.
+
+Theorem C07_no_error_on_wide_fragment : forall cs ic inv,
+  parser_ok cs = true -> C01_wide_final2.guard_wide_x cs ic inv = true ->
+  exists r, parser_parse cs (Some ic) false (C01Spec.spell cs inv) = Ok r.
+Proof. exact no_error_wide. Qed.
 
 (** A TEST, not the property: all 2958 command lines of <= 3 tokens over a
     14-token alphabet (task names, flags, glued/= forms, cluster, "--", inverse
